@@ -157,8 +157,8 @@ def run(ctx):
             prec = None          # the library's default
             level = "processor"
             reconf = None
-        bump = r.rint(1, 4) if (level == "simulator" and r.chance(1, 2)) else 0
-        if bump and nh >= 1 and n_tot >= 2 and prec == 0 and r.chance(2, 3):
+        bump = r.rint(1, 4) if (level == "simulator" and r.chance(2, 3)) else 0
+        if bump and nh >= 1 and n_tot >= 2 and prec == 0 and r.chance(5, 6):
             # a herald expecting two photons together with a partly distinguishable input: the input splits into tag
             # groups with fewer photons each, and the engine's restricted output space must still hold every outcome
             noise = dict(brightness=1.0, g2=0.0, indistinguishability=r.choice([0.92, 0.75]), transmittance=r.choice([1.0, 0.8]))
@@ -282,10 +282,60 @@ def run(ctx):
         compare(ctx, sig, desc, res, out, nm, tol=1e-9 if cs["prec"] == 0 else None)
     ctx.streams["conditioning"] = len(cases)
 
+    # ---------------------------------------------------------------- heralds expecting several photons, tagged inputs
+    # (simulator level: a herald may expect any count; the input is one tagged Fock state whose groups hold fewer
+    #  photons than the heralds expect, so the engine's restricted output space must be sized from the heralds' SUM)
+    nt = ctx.n(40, 400)
+    tcases, treqs = [], []
+    for i in range(nt):
+        r = rng.fork(("tagged-heralds", i))
+        m = r.rint(3, 4)
+        c = rand_circ(r, m, True)
+        ng = r.rint(2, 3)
+        groups = []
+        for g in range(ng):
+            st = [0] * m
+            st[r.below(m)] += 1
+            if g == 0 and r.chance(1, 4):
+                st[r.below(m)] += 1
+            groups.append(st)
+        ntot = sum(sum(g) for g in groups)
+        hm = sorted(r.shuffle(range(m))[:r.rint(1, 2)])
+        heralds = {hm[0]: r.rint(2, min(3, ntot))}
+        for h in hm[1:]:
+            heralds[h] = r.rint(0, 1)
+        if sum(heralds.values()) > ntot:
+            heralds = {hm[0]: min(2, ntot)}
+        flt = r.choice([0, 0, 1])
+        backend = r.choice(["SLOS", "Naive", "SLAP"])
+        keep = r.chance(1, 2)
+        text = "|" + ",".join("".join("{_:%d}" % gi for gi, g in enumerate(groups) for _ in range(g[mode])) or "0"
+                              for mode in range(m)) + ">"
+        tcases.append((c, m, groups, heralds, flt, backend, keep, text))
+        F = flt + sum(heralds.values())
+        treqs.append((40, [m, c.U, [[Fraction(1), groups]], [[h, v] for h, v in heralds.items()], [0], F, keep, []]))
+    touts = ctx.model.run(treqs)
+    for (c, m, groups, heralds, flt, backend, keep, text), out in zip(tcases, touts):
+        desc = {"circuit": c.describe(), "input": text, "heralds (simulator level)": {str(k): v for k, v in heralds.items()},
+                "filter": flt, "backend": backend, "keep_heralds": keep}
+        ctx.case(["tagged-heralds", gen.qmat_key(c.U), text, sorted(heralds.items()), flt, backend, keep], True, desc)
+        ctx.count("tagged-input-herald-expecting-%d" % max(heralds.values()))
+        try:
+            sim = Simulator({"SLOS": pcvl.SLOSBackend, "Naive": pcvl.NaiveBackend, "SLAP": pcvl.SLAPBackend}[backend]())
+            sim.set_precision(0)
+            sim.set_circuit(c.build())
+            sim.set_selection(min_detected_photons_filter=flt, heralds=dict(heralds))
+            sim.keep_heralds(keep)
+            res = sim.probs_svd(pcvl.SVDistribution(pcvl.BasicState(text)))
+            compare(ctx, "probs_svd-tagged-heralds", desc, res, out, m if keep else m - len(heralds))
+        except Exception as e:
+            ctx.fail(f"exception-tagged-heralds-{type(e).__name__}", f"raised {type(e).__name__}: {e}", desc)
+    ctx.streams["heralds expecting several photons with tagged inputs"] = len(tcases)
+
     # ---------------------------------------------------------------- processors with loss channels (layered simulator)
     # The unconditioned distribution over the original modes comes from C07's model (enlarged lossless circuit, fid 70);
     # conditioning on filter and heralds is done here exactly on those rationals, following `condition`.
-    from fractions import Fraction
+
     from perceval.components import LC
     from ..common import PYTH
     nl = ctx.n(40, 500)
